@@ -33,6 +33,9 @@ pub struct Layout {
     pub nl: &'static str,
     /// (first piece, last piece) of each verbatim region
     pub regions: Vec<(usize, usize)>,
+    /// lower-cased text of the tokens after which an own-line comment was put in the middle of
+    /// a statement or declaration
+    pub odd_comment_after: Vec<String>,
 }
 
 #[derive(Clone, Copy, Debug, PartialEq, Eq)]
@@ -53,17 +56,19 @@ pub struct DecoOpts {
     pub cond_wrap: u32,
     pub blank_line: u32,
     pub regions: u32,
+    /// own-line comment between two arbitrary tokens of a statement/declaration
+    pub odd_comment: u32,
 }
 
 impl DecoOpts {
     pub fn none() -> Self {
-        DecoOpts { own_line_comment: 0, trailing_comment: 0, inline_block_comment: 0, own_line_directive: 0, cond_wrap: 0, blank_line: 0, regions: 0 }
+        DecoOpts { own_line_comment: 0, trailing_comment: 0, inline_block_comment: 0, own_line_directive: 0, cond_wrap: 0, blank_line: 0, regions: 0, odd_comment: 0 }
     }
     pub fn light() -> Self {
-        DecoOpts { own_line_comment: 60, trailing_comment: 60, inline_block_comment: 8, own_line_directive: 25, cond_wrap: 25, blank_line: 120, regions: 0 }
+        DecoOpts { own_line_comment: 60, trailing_comment: 60, inline_block_comment: 8, own_line_directive: 25, cond_wrap: 25, blank_line: 120, regions: 0, odd_comment: 0 }
     }
     pub fn heavy() -> Self {
-        DecoOpts { own_line_comment: 200, trailing_comment: 200, inline_block_comment: 40, own_line_directive: 80, cond_wrap: 80, blank_line: 250, regions: 0 }
+        DecoOpts { own_line_comment: 200, trailing_comment: 200, inline_block_comment: 40, own_line_directive: 80, cond_wrap: 80, blank_line: 250, regions: 0, odd_comment: 0 }
     }
 }
 
@@ -102,6 +107,17 @@ pub fn safe_glue(prev: &Piece, next: &Piece) -> bool {
         return true;
     }
     let is_num = |t: &str| t.chars().next().is_some_and(|c| c.is_ascii_digit());
+    // a one-character arithmetic/comparison operator next to an operand (never next to another operator)
+    let is_op1 = |t: &str| matches!(t, "+" | "-" | "*" | "=" | "<" | ">" | "@");
+    let operand_start = |c: char| c.is_ascii_alphanumeric() || c == '_' || c == '\'' || c == '$' || c == '#' || c == '(' || c == '[';
+    let operand_end = |c: char| c.is_ascii_alphanumeric() || c == '_' || c == '\'' || c == ')' || c == ']';
+    if is_op1(pt) && operand_start(b) && !(pt == "(" ) {
+        return true;
+    }
+    if is_op1(nt) && operand_end(a) && !(is_num(pt) && false) {
+        // `1e` style exponents cannot occur: number tokens are complete
+        return true;
+    }
     if (pt == "." || pt == "^" || pt == "@") && (b.is_ascii_alphabetic() || b == '_') {
         return !is_num(nt);
     }
@@ -228,6 +244,7 @@ impl Layout {
         let mut pending_end: Vec<(usize, String, u16)> = vec![];
 
         let mut cur_indent = String::new();
+        let mut odd_comment_after: Vec<String> = vec![];
         for (ti, t) in toks.iter().enumerate() {
             let indent: String = indent_unit.repeat(t.depth as usize);
             if t.line_start {
@@ -300,6 +317,21 @@ impl Layout {
                         gap = format!("{nl}{cur_indent}    ");
                     }
                 }
+                // own-line comment in the middle of a statement / declaration
+                if rng.chance(deco.odd_comment, 1000) && prev.is_some() {
+                    let prev_is_line_comment = prev.is_some_and(|p| p.kind == PieceKind::LineComment);
+                    if let Some(p) = prev {
+                        odd_comment_after.push(p.text.to_ascii_lowercase());
+                    }
+                    gaps.push(if prev_is_line_comment { gap.clone() } else { format!("{nl}{cur_indent}      ") });
+                    if rng.bool() {
+                        pieces.push(Piece { kind: PieceKind::BlockComment, text: block_comment_text(rng, nl, false), verbatim: false });
+                    } else {
+                        pieces.push(Piece { kind: PieceKind::LineComment, text: line_comment_text(rng), verbatim: false });
+                    }
+                    gap = format!("{nl}{cur_indent}    ");
+                }
+                let prev = pieces.last();
                 // inline block comment before this token
                 if rng.chance(deco.inline_block_comment, 1000) && prev.is_some() && !prev.is_some_and(|p| p.kind == PieceKind::LineComment) {
                     gaps.push(" ".to_string());
@@ -320,7 +352,7 @@ impl Layout {
             pieces.push(Piece { kind: PieceKind::Directive, text, verbatim: false });
         }
         gaps.push(nl.to_string());
-        Layout { pieces, gaps, nl, regions: vec![] }
+        Layout { pieces, gaps, nl, regions: vec![], odd_comment_after }
     }
 
     /// An admissible re-layout (C06): token order, comment-touching gaps, gaps with two or more
@@ -419,6 +451,6 @@ impl Layout {
         }
         gaps.push(text[pos..].to_string());
         let nl = if text.contains("\r\n") { "\r\n" } else { "\n" };
-        Layout { pieces, gaps, nl, regions: vec![] }
+        Layout { pieces, gaps, nl, regions: vec![], odd_comment_after: vec![] }
     }
 }
